@@ -94,6 +94,21 @@ def janus_roundtrips(res, rng, tier):
                 for p in tmp.particles:
                     sim.add(m=p.m, x=math.trunc(p.x / sp) * sp, y=math.trunc(p.y / sp) * sp, z=math.trunc(p.z / sp) * sp,
                             vx=math.trunc(p.vx / sv) * sv, vy=math.trunc(p.vy / sv) * sv, vz=math.trunc(p.vz / sv) * sv)
+                pre = None
+                if n_cfg % 3 == 2:
+                    # the same simulation object was first advanced with another integrator (which leaves its own settings behind),
+                    # then snapped back onto the grid and handed to JANUS
+                    pre = ["whfast", "eos", "saba", "mercurius"][(n_cfg // 3) % 4]
+                    sim.integrator = pre
+                    if pre == "whfast":
+                        sim.ri_whfast.coordinates = ["jacobi", "democraticheliocentric", "whds"][(n_cfg // 12) % 3]
+                    sim.steps(3)
+                    sim.synchronize()
+                    for p in sim.particles:
+                        p.x, p.y, p.z = (math.trunc(c / sp) * sp for c in (p.x, p.y, p.z))
+                        p.vx, p.vy, p.vz = (math.trunc(c / sv) * sv for c in (p.vx, p.vy, p.vz))
+                    sim.integrator = "janus"
+                    sim.dt = abs(sim.dt)
                 b0 = bits(sim)
                 sim.steps(nsteps)
                 moved = bits(sim) != b0
@@ -104,7 +119,7 @@ def janus_roundtrips(res, rng, tier):
                     a = struct.unpack("%dd" % (6 * sim.N), b0)
                     b = struct.unpack("%dd" % (6 * sim.N), bits(sim))
                     comp = [i for i in range(len(a)) if a[i] != b[i]]
-                    res["violations"].append({"kind": "janus-roundtrip", "order": order, "scale_pos": "2^%d" % sp_e, "scale_vel": "2^%d" % sv_e, "N": N, "steps": nsteps,
+                    res["violations"].append({"kind": "janus-roundtrip", "order": order, "scale_pos": "2^%d" % sp_e, "scale_vel": "2^%d" % sv_e, "N": N, "steps": nsteps, "integrator_used_before": pre,
                                               "moved": moved, "differing_components": [("xyzuvw"[c % 6], c // 6) for c in comp][:6]})
     res["janus_roundtrips"] = n_cfg
 
@@ -147,13 +162,26 @@ def sym_roundtrips(res, rng, tier):
                     sim.ri_sei.OMEGAZ = opt[1]       # vertical epicyclic frequency different from the orbital one
                 for p in sim.particles:
                     p.m = 0.0 if rep % 2 == 0 else p.m * 1e-3      # without and with weak self-gravity
+            extra = rep >= 2 or (tier == "quick" and rep == 1 and name in ("saba", "whfast", "eos", "leapfrog"))
+            if extra:
+                # a position-dependent additional force (a weak harmonic trap): every force evaluation of the scheme must include it
+                def af(sp_):
+                    s_ = sp_.contents
+                    for q in range(s_.N):
+                        pp = s_.particles[q]
+                        pp.ax -= 0.05 * pp.x
+                        pp.ay -= 0.03 * pp.y
+                        pp.az -= 0.02 * pp.z
+                sim.additional_forces = af
             s0 = [(p.x, p.y, p.z, p.vx, p.vy, p.vz) for p in sim.particles]
             n = 50
             sim.steps(n)
             sim.dt = -sim.dt
             sim.steps(n)
             err = max(abs(a - b) for p, q in zip(s0, [(p.x, p.y, p.z, p.vx, p.vy, p.vz) for p in sim.particles]) for a, b in zip(p, q))
-            key = name + (":" + str(opt) if opt else "")
+            if extra:
+                sim._additional_forces = type(sim._additional_forces)()
+            key = name + (":" + str(opt) if opt else "") + (" + additional force" if extra else "")
             worst[key] = max(worst.get(key, 0.0), err)
             if not err <= 1e-10:
                 res["violations"].append({"kind": "symmetric-roundtrip", "scheme": key, "steps": n, "error": err})
